@@ -10,7 +10,7 @@
 (* header-eating decoder / raw error text.                                    *)
 EXTENDS Resp, TLC, Json
 
-CONSTANTS MaxFrames, MaxChunks, Live, Legacy, Univ, Lemmas
+CONSTANTS MaxFrames, MaxChunks, MaxChunks1, Live, Legacy, Univ, Lemmas
 
 VARIABLE hist
 vars == <<wire, buf, sent, decoded, out, st, hist>>
@@ -42,14 +42,20 @@ Wires == {AllWires[i] : i \in Univ}
 Init == RInit /\ hist = <<>>
 H(r) == hist' = Append(hist, r)
 
+\* the client composes its stream frame by frame (kept in `wire` while idle), then connects
+DoPlan ==
+    /\ st = "idle" /\ hist = <<>>
+    /\ Len(ParseAll(wire).vs) < MaxFrames
+    /\ \E w \in Wires : wire' = wire \o w
+    /\ UNCHANGED <<buf, sent, decoded, out, st, hist>>
 DoOpen ==
-    /\ hist = <<>>
-    /\ \E n \in 1..MaxFrames : \E fs \in [1..n -> Wires] :
-          /\ Open(Flat(fs), Live)
-          /\ H([op |-> IF Live THEN "LiveOpen" ELSE "Open", wire |-> Flat(fs)])
+    /\ hist = <<>> /\ wire # <<>>
+    /\ Open(wire, Live)
+    /\ H([op |-> IF Live THEN "LiveOpen" ELSE "Open", wire |-> wire])
 
 \* the k first bytes of the wire arrive; the last permitted chunk takes everything
-ChunkOK(k) == k \in 1..Len(wire) /\ (Len(hist) < MaxChunks \/ k = Len(wire))
+\* (streams of one frame may be cut into MaxChunks1 pieces, longer ones into MaxChunks)
+ChunkOK(k) == k \in 1..Len(wire) /\ (Len(hist) < (IF Len(sent) = 1 THEN MaxChunks1 ELSE MaxChunks) \/ k = Len(wire))
 DoDeliver ==
     \E k \in 1..Len(wire) :
        /\ ChunkOK(k)
@@ -75,11 +81,11 @@ DoLiveClose ==
     /\ LiveClose(Flat([i \in 1..Len(sent) |-> Encode(ModelReply(sent[i]))]))
     /\ H([op |-> "LiveClose"])
 
-Next == DoOpen \/ DoDeliver \/ DoDecode \/ DoEnd \/ DoLiveSend \/ DoLiveClose
+Next == DoPlan \/ DoOpen \/ DoDeliver \/ DoDecode \/ DoEnd \/ DoLiveSend \/ DoLiveClose
 Spec == Init /\ [][Next]_vars
 
 \* every behaviour that starts must be able to finish: a connection is never stuck
-NoStuck == (st \in {"reading", "decoding", "live"}) => ENABLED Next
+NoStuck == (st \in {"reading", "decoding", "live"}) => ENABLED (DoDeliver \/ DoDecode \/ DoEnd \/ DoLiveSend \/ DoLiveClose)
 
 Done == st = "idle" /\ hist # <<>>
 EmitEnd == (st # "idle" /\ st' = "idle") => PrintT(<<"SCRIPT", ToJson(hist')>>)
